@@ -345,6 +345,12 @@ def check_reader(rep, prog, fn):
     mapvars = [v for v in (ex.var_of(n.c[1]) for n in nodes if n.k == 'CXXOperatorCallExpr' and n.op == '[]' and len(n.c) > 2)
                if v is not None and prog.rec_name(prog.vars[v]['ty']) in ('std::map', 'std::unordered_map')]
     mapvars = set(mapvars)
+    # maps that are only used through member functions (find / at / emplace / lower_bound ...)
+    for n in nodes:
+        if n.k == 'CXXMemberCallExpr' and n.object_arg() is not None:
+            v = ex.var_of(n.object_arg())
+            if v is not None and prog.vars[v].get('kind') == 'local' and prog.rec_name(prog.vars[v]['ty']) in ('std::map', 'std::unordered_map'):
+                mapvars.add(v)
     # a std::vector used as the vertex table: the container that receives the result of add_vertex
     vecvars = set()
     for n in nodes:
@@ -517,6 +523,32 @@ def check_reader(rep, prog, fn):
             l = up.c[0].strip_all()
             if l.k == 'CXXOperatorCallExpr' and l.op == '[]' and ex.var_of(l.c[1]) in mapvars:
                 named = ex.lin(l.c[2])
+        if named is None:
+            # const vertex_descriptor v = add_vertex(g);  then  map.emplace(i, v) / emplace_hint(pos, i, v) / insert({i, v}) / it->second = v
+            newv = up.decl_id if up is not None and up.k == 'VarDecl' else None
+            keys_ = []
+            other_use = False
+            if newv is not None:
+                for m_ in loop.walk():
+                    if m_.k == 'CXXMemberCallExpr' and m_.callee and m_.object_arg() is not None and ex.var_of(m_.object_arg()) in mapvars and \
+                            any(ex.refs_var(a_, newv) for a_ in m_.args()):
+                        args_ = m_.args()
+                        if m_.callee['name'] in ('emplace', 'try_emplace', 'insert_or_assign') and len(args_) >= 2 and ex.var_of(args_[-1]) == newv:
+                            keys_.append(args_[-2])
+                        elif m_.callee['name'] == 'emplace_hint' and len(args_) == 3 and ex.var_of(args_[2]) == newv:
+                            keys_.append(args_[1])
+                        else:
+                            other_use = True
+                    if m_.k in ('BinaryOperator', 'CXXOperatorCallExpr') and m_.op == '=' and ex.var_of(m_.c[-1]) == newv:
+                        l_ = (m_.c[0] if m_.k == 'BinaryOperator' else m_.c[1]).strip_all()
+                        if l_.k == 'CXXOperatorCallExpr' and l_.op == '[]' and ex.var_of(l_.c[1]) in mapvars:
+                            keys_.append(l_.c[2])
+            lins_ = {repr(ex.lin(k_)) for k_ in keys_}
+            if keys_ and len(lins_) == 1:
+                named = ex.lin(keys_[0])
+            elif keys_ or other_use:
+                rep.undecided('R10d', av, fn, whatv, 'the new vertex reaches the vertex map through `%s`-style calls outside the idiom table' % 'insert')
+                continue
         if named is None:
             problems.append('the new vertex is not recorded in the vertex map')
         else:
@@ -763,9 +795,15 @@ def check_vector_read(rep, prog, fn, rd, vvar, p_scan):
 def is_lookup_guard(n):
     """conditions of the form map.find(x) == map.end() (their true branch throws)"""
     s = n.strip_all()
-    for d in s.walk():
+    for d in [s] + list(s.walk()):
         if d.k == 'CXXMemberCallExpr' and d.callee and d.callee['name'] in ('find', 'count'):
             return True
+        # it == map.end() where `it` was obtained from find() (one lookup per endpoint, iterator kept)
+        if d.k == 'DeclRefExpr' and d.decl_id is not None and d.fn is not None:
+            dd = ex.unique_def(d.fn, d.decl_id)
+            dd = dd.strip_all() if dd is not None else None
+            if dd is not None and dd.k == 'CXXMemberCallExpr' and dd.callee and dd.callee['name'] in ('find', 'lower_bound'):
+                return True
     return False
 
 
@@ -793,15 +831,25 @@ def body_conditional(loop, node):
     return False
 
 
+def _key_through_locals(fn, node, depth=0):
+    """key of a lookup argument, looking through once-defined locals that only convert the value (`const size_t k = static_cast<size_t>(rs)`)"""
+    v = ex.var_of(node)
+    if v is not None and depth < 4 and fn.prog.vars[v].get('kind') == 'local':
+        d = ex.unique_def(fn, v)
+        if d is not None and ex.var_of(d) is not None:
+            return _key_through_locals(fn, d, depth + 1)
+    return ex.key(node) if v is None else ('v', v)
+
+
 def trace_map_key(prog, fn, arg, mapvars, depth=0):
     """follow an add_edge endpoint back to `vertex_map[key]` / `.at(key)` and return key(key expr)"""
     s = arg.strip_all()
     if depth > 6:
         return None
     if s.k == 'CXXOperatorCallExpr' and s.op == '[]' and ex.var_of(s.c[1]) in mapvars:
-        return ex.key(s.c[2])
+        return _key_through_locals(fn, s.c[2])
     if s.k == 'CXXMemberCallExpr' and s.callee['name'] == 'at' and ex.var_of(s.object_arg()) in mapvars:
-        return ex.key(s.args()[0])
+        return _key_through_locals(fn, s.args()[0])
     if s.k == 'CallExpr' and s.callee and s.callee['g'] == 'boost::vertex' and s.args():
         return trace_map_key(prog, fn, s.args()[0], mapvars, depth + 1)
     if s.k == 'CXXMemberCallExpr' and s.callee['name'] in ('second',):
@@ -814,7 +862,7 @@ def trace_map_key(prog, fn, arg, mapvars, depth=0):
             if d is not None:
                 dd = d.strip_all()
                 if dd.k == 'CXXMemberCallExpr' and dd.callee['name'] == 'find' and ex.var_of(dd.object_arg()) in mapvars:
-                    return ex.key(dd.args()[0])
+                    return _key_through_locals(fn, dd.args()[0])
     v = ex.var_of(s)
     if v is not None:
         d = ex.unique_def(fn, v)
